@@ -5,8 +5,11 @@ import (
 	"encoding/hex"
 	"errors"
 	"fmt"
+	"io"
+	"os"
 	"sort"
 	"strings"
+	"syscall"
 	"time"
 
 	"verifharness/hc"
@@ -143,8 +146,13 @@ func (g *Gen) Payload(depth, unencPermille int) *Recipe {
 }
 
 // contexts handed to Process: 0 Background, 1 live (cancellable, not cancelled), 2 already cancelled, 3 deadline in the past,
-// 4 a custom Context type whose Err() is non-nil, 5 live with a far deadline
-const CtxKinds = 6
+// 4 a custom Context type whose Err() is non-nil, 5 live with a far deadline, 6 cancelled with a custom cause
+// (WithCancelCause), 7 the live-looking child of a cancelled parent, 8 live, cancelled while the call is in flight (the
+// harness's signer / predicate calls InFlightCancel from inside the call)
+const CtxKinds = 9
+
+// InFlightCancel is set by MkContext(8): the hook a callback invokes from inside Process.
+var InFlightCancel func()
 
 type doneCtx struct{ ch chan struct{} }
 
@@ -173,6 +181,19 @@ func MkContext(kind int) (context.Context, func(), bool) {
 	case 5:
 		ctx, cancel := context.WithTimeout(context.Background(), time.Hour)
 		return ctx, cancel, false
+	case 6:
+		ctx, cancel := context.WithCancelCause(context.Background())
+		cancel(errors.New("custom cause"))
+		return ctx, func() {}, true
+	case 7:
+		parent, cancel := context.WithCancel(context.Background())
+		cancel()
+		ctx, cancel2 := context.WithTimeout(parent, time.Hour)
+		return ctx, cancel2, true
+	case 8:
+		ctx, cancel := context.WithCancel(context.Background())
+		InFlightCancel = cancel
+		return ctx, func() { InFlightCancel = nil; cancel() }, false
 	}
 	return context.Background(), func() {}, false
 }
@@ -183,4 +204,46 @@ func GenCtx(r *hc.Rand) int {
 		return 0
 	}
 	return r.Intn(CtxKinds)
+}
+
+// error values an injected dependency (signer, predicate) returns: 0 plain, 1 io.EOF wrapped with %w, 2 context.Canceled bare,
+// 3 context.DeadlineExceeded wrapped, 4 errors.Join of two, 5 a custom type with Is / Timeout / Temporary, 6 a typed-nil
+// error pointer (a non-nil error value all the same), 7 *os.PathError around a syscall errno, 8 one shared package-level value
+const ErrClasses = 9
+
+type richErr struct{ msg string }
+
+func (e *richErr) Error() string {
+	if e == nil {
+		return "typed-nil error"
+	}
+	return e.msg
+}
+func (e *richErr) Is(target error) bool { return target == io.ErrUnexpectedEOF }
+func (e *richErr) Timeout() bool        { return true }
+func (e *richErr) Temporary() bool      { return true }
+
+var sharedErr = errors.New("one shared error value")
+
+func InjectedError(class int) error {
+	switch class {
+	case 1:
+		return fmt.Errorf("reading: %w", io.EOF)
+	case 2:
+		return context.Canceled
+	case 3:
+		return fmt.Errorf("deadline: %w", context.DeadlineExceeded)
+	case 4:
+		return errors.Join(io.ErrShortWrite, os.ErrClosed)
+	case 5:
+		return &richErr{"rich"}
+	case 6:
+		var p *richErr
+		return p
+	case 7:
+		return &os.PathError{Op: "write", Path: "/dev/full", Err: syscall.ENOSPC}
+	case 8:
+		return sharedErr
+	}
+	return errors.New("injected failure")
 }
